@@ -409,6 +409,9 @@ func (eng *Engine) verifyFunction(p *Pkg, key string, ct *Contract) (res *FuncRe
 	// vacuity: the precondition must be satisfiable
 	res.ReqSat = append(res.ReqSat, &Obligation{Name: res.Key + "#vacuity:requires", Kind: "vacuity", Goal: "false", PC: append([]string(nil), st.pc...), Vacuity: true})
 
+	if ct.Wakeup != "" {
+		fc.checkWakeup(st, decl.Body, ct.Wakeup)
+	}
 	if ct.FirstDefer != "" {
 		ok := false
 		if len(decl.Body.List) > 0 {
@@ -775,4 +778,70 @@ func (fc *FnCtx) execRangeFunc(st *State, s *ast.RangeStmt, label string) []Outc
 		}
 	}
 	return append(outsF, rest...)
+}
+
+// checkWakeup: progress condition of a worker loop. Every blocking channel operation in the body (function literals
+// excluded) must be a select that also receives from the wake-up channel `want` (or has a default clause). This is a
+// syntactic obligation: it is generated per offending operation with goal `false`.
+func (fc *FnCtx) checkWakeup(st *State, body *ast.BlockStmt, want string) {
+	norm := func(s string) string { return strings.Join(strings.Fields(s), "") }
+	want = norm(want)
+	n := map[string]int{}
+	flag := func(kind string, pos token.Pos, what string) {
+		n[kind]++
+		fc.assertNamed(st, "wakeup", fmt.Sprintf("%s.%d", kind, n[kind]), "false", what+" can block without listening on "+want, pos)
+	}
+	var walk func(x ast.Node)
+	walk = func(x ast.Node) {
+		ast.Inspect(x, func(y ast.Node) bool {
+			switch y := y.(type) {
+			case *ast.FuncLit:
+				return false
+			case *ast.SelectStmt:
+				guarded := false
+				for _, c := range y.Body.List {
+					cc := c.(*ast.CommClause)
+					if cc.Comm == nil {
+						guarded = true
+						continue
+					}
+					var ue *ast.UnaryExpr
+					switch cm := cc.Comm.(type) {
+					case *ast.ExprStmt:
+						ue, _ = ast.Unparen(cm.X).(*ast.UnaryExpr)
+					case *ast.AssignStmt:
+						if len(cm.Rhs) == 1 {
+							ue, _ = ast.Unparen(cm.Rhs[0]).(*ast.UnaryExpr)
+						}
+					}
+					if ue != nil && ue.Op == token.ARROW && norm(exprText(ue.X)) == want {
+						guarded = true
+					}
+				}
+				if !guarded {
+					flag("select", y.Pos(), "select statement")
+				}
+				for _, c := range y.Body.List {
+					for _, b := range c.(*ast.CommClause).Body {
+						walk(b)
+					}
+				}
+				return false
+			case *ast.UnaryExpr:
+				if y.Op == token.ARROW {
+					flag("recv", y.Pos(), "channel receive "+exprText(y))
+				}
+			case *ast.SendStmt:
+				flag("send", y.Pos(), "channel send "+exprText(y.Chan))
+			case *ast.RangeStmt:
+				if t := fc.typeOf(y.X); t != nil {
+					if _, ok := t.Underlying().(*types.Chan); ok {
+						flag("range", y.Pos(), "range over channel "+exprText(y.X))
+					}
+				}
+			}
+			return true
+		})
+	}
+	walk(body)
 }
